@@ -316,7 +316,12 @@ def wall_shape(rng):
         return m, [(0.0, 0.0), (w, 0.0), (w, h), (0.0, h)], []
     if m == 'L':
         w, h = G.dy(rng.uniform(4, 12)), G.dy(rng.uniform(3, 8)); a, b = G.dy(w * rng.uniform(0.3, 0.7)), G.dy(h * rng.uniform(0.3, 0.7))
-        return m, [(0.0, 0.0), (w, 0.0), (w, b), (a, b), (a, h), (0.0, h)], []
+        lp = [(0.0, 0.0), (w, 0.0), (w, b), (a, b), (a, h), (0.0, h)]
+        # every orientation of the L (leg up / down, left / right), keeping the loop counter-clockwise
+        if rng.random() < 0.5: lp = [(w - x, y) for x, y in lp][::-1]
+        if rng.random() < 0.5: lp = [(x, h - y) for x, y in lp][::-1]
+        k = rng.randrange(len(lp)); lp = lp[k:] + lp[:k]
+        return m, lp, []
     if m == 'gable':
         w, h = G.dy(rng.uniform(3, 12)), G.dy(rng.uniform(2, 5)); t = G.dy(rng.uniform(0.5, 3))
         return m, [(0.0, 0.0), (w, 0.0), (w, h), (w / 2, h + t), (0.0, h)], []
